@@ -42,3 +42,283 @@ pub fn filter_pattern_matches(pattern: &str, path: &Path) -> Result<bool, String
         .map(|pattern| pattern.matches(path))
         .map_err(|err| err.to_string())
 }
+
+/// C15: require resolution and conversion (read-only wrappers around crate-private items).
+pub mod c15 {
+    use std::path::{Path, PathBuf};
+
+    use crate::nodes::{Arguments, Expression, FunctionCall, StringExpression};
+    use crate::rules::require::path_utils;
+    use crate::rules::{Context, ContextBuilder, RequireMode};
+    use crate::Resources;
+
+    /// `find_luau_configuration` memoises per parent directory in a thread local; a harness
+    /// that changes the in-memory file system between cases has to reset it.
+    pub fn clear_luau_configuration_cache() {
+        crate::utils::clear_luau_configuration_cache()
+    }
+
+    /// `path_iterator::find_require_paths` collected.
+    pub fn find_require_paths(path: &Path, module_folder_name: &str) -> Vec<PathBuf> {
+        crate::rules::require::find_require_paths(path, module_folder_name).collect()
+    }
+
+    pub fn get_relative_path(
+        require_path: &Path,
+        source_path: &Path,
+        use_current_dir_prefix: bool,
+    ) -> Result<Option<PathBuf>, String> {
+        path_utils::get_relative_path(require_path, source_path, use_current_dir_prefix)
+            .map_err(|err| err.to_string())
+    }
+
+    pub fn get_relative_parent_path(path: &Path) -> PathBuf {
+        path_utils::get_relative_parent_path(path).to_path_buf()
+    }
+
+    pub fn is_require_relative(path: &Path) -> bool {
+        path_utils::is_require_relative(path)
+    }
+
+    pub fn write_require_path(path: &Path) -> Result<String, String> {
+        path_utils::write_require_path(path).map_err(|err| err.to_string())
+    }
+
+    fn build_context<'r>(
+        project_location: Option<&Path>,
+        current_path: &Path,
+        resources: &'r Resources,
+    ) -> Context<'static, 'r, 'static> {
+        let builder = ContextBuilder::new(current_path, resources, "");
+        match project_location {
+            Some(location) => builder.with_project_location(location),
+            None => builder,
+        }
+        .build()
+    }
+
+    fn initialized(mode: &RequireMode, context: &Context) -> Result<RequireMode, String> {
+        let mut mode = mode.clone();
+        match &mut mode {
+            RequireMode::Path(path_mode) => path_mode.initialize(context),
+            RequireMode::Luau(luau_mode) => luau_mode.initialize(context),
+            RequireMode::Roblox(_) => return Err("roblox mode is not covered".to_owned()),
+        }
+        .map_err(|err| format!("initialize: {}", err))?;
+        Ok(mode)
+    }
+
+    /// What `RequireConverter::try_require_conversion` does first: `mode.initialize(context)`
+    /// (as `ConvertRequire::process` does) and `mode.find_require(require("<literal>"), context)`.
+    pub fn find_require(
+        mode: &RequireMode,
+        project_location: Option<&Path>,
+        current_path: &Path,
+        require_literal: &str,
+        resources: &Resources,
+    ) -> Result<Option<PathBuf>, String> {
+        let context = build_context(project_location, current_path, resources);
+        let mode = initialized(mode, &context)?;
+        let call = FunctionCall::from_name("require")
+            .with_arguments(StringExpression::from_value(require_literal));
+        mode.find_require(&call, &context)
+            .map_err(|err| err.to_string())
+    }
+
+    /// `target.generate_require(require_path, current, context)`; the string value of the single
+    /// string argument that is generated (None when no argument is generated).
+    pub fn generate_require(
+        target: &RequireMode,
+        current: &RequireMode,
+        project_location: Option<&Path>,
+        current_path: &Path,
+        require_path: &Path,
+        resources: &Resources,
+    ) -> Result<Option<Vec<u8>>, String> {
+        let context = build_context(project_location, current_path, resources);
+        let target = initialized(target, &context)?;
+        let arguments = match &target {
+            RequireMode::Path(path_mode) => {
+                path_mode.generate_require(require_path, current, &context)
+            }
+            RequireMode::Luau(luau_mode) => {
+                luau_mode.generate_require(require_path, current, &context)
+            }
+            RequireMode::Roblox(_) => return Err("roblox mode is not covered".to_owned()),
+        }
+        .map_err(|err| err.to_string())?;
+        Ok(arguments.and_then(|arguments| match arguments {
+            Arguments::String(string) => Some(string.get_value().to_vec()),
+            Arguments::Tuple(tuple) if tuple.len() == 1 => {
+                match tuple.iter_values().next() {
+                    Some(Expression::String(string)) => Some(string.get_value().to_vec()),
+                    _ => None,
+                }
+            }
+            _ => None,
+        }))
+    }
+}
+
+// ---- C18 (comment rules) --------------------------------------------------------------
+
+/// The comment trivia `append_text_comment` builds for `text` (empty string when the rule
+/// does nothing).
+pub fn append_text_comment_text(text: &str) -> String {
+    crate::rules::AppendTextComment::new(text)
+        .verif_comment_text()
+        .unwrap_or_default()
+}
+
+/// `is_single_line_comment` of the token-based generator.
+pub fn is_single_line_comment(content: &str) -> bool {
+    crate::generator::TokenBasedLuaGenerator::verif_is_single_line_comment(content)
+}
+
+// ---- C02 (dense / readable generators) -------------------------------------------------
+
+/// Read-only access to the generator helpers and operator tables used by the C02 check.
+pub mod c02 {
+    use crate::nodes::{BinaryOperator, Expression};
+
+    pub use crate::generator::utils::starts_with_table;
+
+    /// `BinaryOperator::get_precedence` (private).
+    pub fn binary_operator_precedence(operator: BinaryOperator) -> u8 {
+        operator.verif_precedence()
+    }
+
+    /// `utils::starts_with_table(expression).is_some()`
+    pub fn expression_starts_with_table(expression: &Expression) -> bool {
+        starts_with_table(expression).is_some()
+    }
+}
+
+// ---- C03 / C04 (token generator) -------------------------------------------------------
+
+/// Records, in order, what the token-based generator is asked to write (the arguments of
+/// `write_token_options`, `write_symbol`, `write_symbol_without_space_check` and the raw
+/// pushes).  Recording is off unless `start` was called on the current thread; it never
+/// influences the generator.
+pub mod token_trace {
+    use std::cell::RefCell;
+
+    use crate::nodes::{Position, Token, TriviaKind};
+
+    #[derive(Clone, Debug)]
+    pub enum Pos {
+        Ref {
+            start: usize,
+            end: usize,
+            line: usize,
+        },
+        Owned {
+            content: String,
+            line: usize,
+        },
+        Any {
+            content: String,
+        },
+    }
+
+    #[derive(Clone, Debug)]
+    pub struct TracedTrivia {
+        pub is_comment: bool,
+        pub position: Pos,
+    }
+
+    #[derive(Clone, Debug)]
+    pub enum Event {
+        Token {
+            position: Pos,
+            leading: Vec<TracedTrivia>,
+            trailing: Vec<TracedTrivia>,
+            space_check: bool,
+        },
+        Symbol {
+            content: String,
+            space_check: bool,
+        },
+        Raw {
+            content: String,
+        },
+    }
+
+    thread_local! {
+        static TRACE: RefCell<Option<Vec<Event>>> = const { RefCell::new(None) };
+    }
+
+    pub fn start() {
+        TRACE.with(|trace| *trace.borrow_mut() = Some(Vec::new()));
+    }
+
+    pub fn take() -> Vec<Event> {
+        TRACE.with(|trace| trace.borrow_mut().take().unwrap_or_default())
+    }
+
+    fn convert(position: &Position) -> Pos {
+        match position {
+            Position::LineNumberReference {
+                start,
+                end,
+                line_number,
+            } => Pos::Ref {
+                start: *start,
+                end: *end,
+                line: *line_number,
+            },
+            Position::LineNumber {
+                content,
+                line_number,
+            } => Pos::Owned {
+                content: content.to_string(),
+                line: *line_number,
+            },
+            Position::Any { content } => Pos::Any {
+                content: content.to_string(),
+            },
+        }
+    }
+
+    fn push(event: impl FnOnce() -> Event) {
+        TRACE.with(|trace| {
+            if let Some(events) = trace.borrow_mut().as_mut() {
+                events.push(event());
+            }
+        });
+    }
+
+    pub(crate) fn token(token: &Token, space_check: bool) {
+        push(|| Event::Token {
+            position: convert(token.verif_position()),
+            leading: token
+                .iter_leading_trivia()
+                .map(|trivia| TracedTrivia {
+                    is_comment: trivia.kind() == TriviaKind::Comment,
+                    position: convert(trivia.verif_position()),
+                })
+                .collect(),
+            trailing: token
+                .iter_trailing_trivia()
+                .map(|trivia| TracedTrivia {
+                    is_comment: trivia.kind() == TriviaKind::Comment,
+                    position: convert(trivia.verif_position()),
+                })
+                .collect(),
+            space_check,
+        });
+    }
+
+    pub(crate) fn symbol(content: &str, space_check: bool) {
+        push(|| Event::Symbol {
+            content: content.to_owned(),
+            space_check,
+        });
+    }
+
+    pub(crate) fn raw(content: &str) {
+        push(|| Event::Raw {
+            content: content.to_owned(),
+        });
+    }
+}
